@@ -116,6 +116,12 @@ func c07Mutations(limit int) (out [][]byte) {
 		r.Msg = m
 		add(r)
 	}
+	// hosts that the extractions of the two-output configuration drop (all / every second one)
+	for _, h := range []string{"skipme", "halfway", "half"} {
+		r := b
+		r.Host = h
+		add(r)
+	}
 	// routing: other pipelines of the sample configuration
 	for _, v := range [][3]string{{"appServ", "auth.log", "163"}, {"appServ", "main.log", "164"}, {"abandoned", "x", "166"}, {"other/v", "s", "167"}, {"appServ/errors", "access.log", "165"}} {
 		r := b
@@ -180,7 +186,10 @@ func c07TwoOutputs(maxMsg, maxRec int) *c07Conf {
 		LevelMap: c07SampleLevels, OKeys: []string{"app"}, Tag: "t.${app[0:4]}", MKeys: []string{"host"},
 		MaxMsg: maxMsg, MaxRec: maxRec, LineBuf: 4 * maxRec, NowUnix: 1600000001, NowNsec: 0,
 	}
-	cf.Extract = []*c15Node{{Kind: kExHead, Key: "log", Pat: `\[*\] - `, Num: "20", Dest: "cls"}}
+	cf.Extract = []*c15Node{{Kind: kExHead, Key: "log", Pat: `\[*\] - `, Num: "20", Dest: "cls"},
+		// DROP inside the extractions (compositeParser releases the record): everything, and a sampled half
+		{Kind: kDrop, Match: []c15Match{{"host", opStart, "skip"}}, Num: "100", Label: "xskip"},
+		{Kind: kDrop, Match: []c15Match{{"host", opStart, "half"}}, Num: "50", Label: "xhalf"}}
 	cf.Transforms = []*c15Node{
 		{Kind: kParseTime, Key: "time", Label: "timeError"},
 		{Kind: kRedact, Key: "log", Label: "redacted"},
@@ -312,6 +321,10 @@ func c07Gen(g *Gen) {
 	}
 	c07GenMutations(g, mid, two, small)
 	c07GenEveryPri(g, mid)
+	c07GenExtractionDrops(g, two)
+	one := c07TwoOutputs(200, 456)
+	one.Outs = one.Outs[:1] // one output: the reference count of a record is 1
+	c07GenExtractionDrops(g, one)
 	c07GenUTF8(g, mid, two)
 	c07GenHuge(g, small, two)
 	c07GenBoundary64K(g)
@@ -336,6 +349,22 @@ func c07GenMutations(g *Gen, cfs ...*c07Conf) {
 			}
 		}
 	}
+}
+
+// DROP in the extractions: released by the composite parser, counted as passed input only
+func c07GenExtractionDrops(g *Gen, cf *c07Conf) {
+	mk := func(host string) []byte {
+		r := c07Base()
+		r.Host = host
+		return r.bytes()
+	}
+	c07EmitSeq(g, "extraction-drop", cf, [][]byte{c07Sentinel(), mk("skipme"), c07Sentinel(), mk("skipme"), mk("skipme"), c07Sentinel()})
+	var seq [][]byte
+	for i := 0; i < 9; i++ {
+		seq = append(seq, mk("halfway"), c07Sentinel())
+	}
+	c07EmitSeq(g, "extraction-drop", cf, seq)
+	c07EmitSeq(g, "extraction-drop", cf, [][]byte{mk("half"), mk("skip"), []byte("<"), mk("half"), mk("half"), c07Sentinel(), mk("skip")})
 }
 
 func c07GenEveryPri(g *Gen, cf *c07Conf) {
